@@ -22,9 +22,10 @@ BOXES = {
     'odd': (0.4, 9.6),              # bounds that are not on a decimal grid
 }
 LATENCIES = (1.0, 10.0, 60.0, 600.0, 3600.0, 36000.0)
-OUTCOMES = ('ok', 'timeout', 'runtime', 'value', 'key', 'zerodiv')
+OUTCOMES = ('ok', 'timeout', 'runtime', 'value', 'key', 'zerodiv', 'oserror')
 EXC = {'timeout': TimeoutError, 'runtime': RuntimeError, 'value': ValueError, 'key': KeyError,
-       'zerodiv': ZeroDivisionError}
+       'zerodiv': ZeroDivisionError,
+       'oserror': FileNotFoundError}      # an OSError that is NOT a time-out (TimeoutError is an OSError subclass too)
 TRANSIENT = ('timeout', 'runtime')
 
 
@@ -130,7 +131,7 @@ class World:
             return 'ok'
         if self.D.flag('fault', ('obj', ind_id, attempt), self.fail_p):
             if self.fail == 'other':
-                return OUTCOMES[3 + self.D.dec('fault', ('objk', ind_id, attempt), 3)]
+                return OUTCOMES[3 + self.D.dec('fault', ('objk', ind_id, attempt), 4)]
             return TRANSIENT[self.D.dec('fault', ('objk', ind_id, attempt), 2)]
         return 'ok'
 
